@@ -207,7 +207,7 @@ pub fn skip_reason(w: &World, step: &Step) -> Option<&'static str> {
     match &step.op {
         Op::Delete { pred } | Op::Update { pred: Some(pred), .. } if risky(pred) => Some("c16-null-tautology-predicate"),
         Op::Merge(m) if m.by_source % 3 == 2 && risky(&m.by_source_pred) => Some("c16-null-tautology-predicate"),
-        Op::OptimizeIndices { .. } if w.cfg.stable_row_ids && !w.stale_indexed_cols.is_empty() => Some("c19-optimize-after-update-stable-rowids"),
+        Op::OptimizeIndices { .. } if !w.stale_indexed_cols.is_empty() => Some("c19-optimize-after-update-stable-rowids"),
         // a CreateIndex committed from a stale handle after a deferred-remap compaction that rewrote only part of the
         // fragments it covers makes every later load_indices() panic (frag_reuse remap_fragment_bitmap unwrap);
         // concurrent-commit territory (C04/C24), not cleanup's or copy's
